@@ -83,6 +83,10 @@ class State:
         elif kind == "combine":
             # the receiving application folds stderr into stdout (moves buffered stderr data, too)
             res = ("combine", b.set_combine_stderr(True))
+        elif kind == "rshut":
+            # the reading side half-closes (sends its own EOF) and keeps reading
+            b.shutdown_write()
+            res = ("reader-half-closed",)
         elif kind == "dA":
             res = ("delivered", self.cp.deliver("A"))
         elif kind == "dB":
@@ -104,6 +108,11 @@ class State:
                 self.cp.ta.packetizer.send_message(m)
                 self.remaining -= n
                 self.sent_app += n
+                if code != 1:
+                    # paramiko discards extended data of other types on the application's behalf: the bytes
+                    # count as consumed (they are credited back), they must not reach any stream
+                    self.consumed += n
+                    self.discard_expected = getattr(self, "discard_expected", 0) + n
                 res = ("ext-sent", n)
         else:
             raise ValueError(ev)
@@ -119,7 +128,7 @@ class State:
         a, b = self.cp.a, self.cp.b
         return (self.remaining, a.out_window_size, b.in_window_sofar, len(b.in_buffer),
                 len(b.in_stderr_buffer), tuple(self.inflight("A")), tuple(self.inflight("B")),
-                a.closed, b.closed, a.eof_sent, b.eof_received, bool(b.combine_stderr))
+                a.closed, b.closed, a.eof_sent, b.eof_received, bool(b.combine_stderr), b.eof_sent, a.eof_received)
 
     def ledger(self):
         """C19 invariants over the global message order.  Returns None or (clause, detail)."""
@@ -138,6 +147,9 @@ class State:
             elif side == "B" and t == MSG_CHANNEL_WINDOW_ADJUST:
                 adjusts += val
                 credit += val
+                if adjusts > sent + self.base_credit:
+                    # nothing can have been consumed that was not sent before
+                    return ("window-granted-exceeds-bytes-received", {"adjusts": adjusts, "received": sent})
                 if adjusts > self.consumed:
                     return ("window-granted-exceeds-consumed", {"adjusts": adjusts,
                                                                 "consumed": self.consumed})
@@ -208,6 +220,10 @@ def alphabet19(W, P):
         evs.append(("send_err", n))
     for n in sorted({P - 64, W + 1}):
         evs.append(("send_text", n))
+    # extended data of a type paramiko discards (honest peer: debited from its window), below / above the
+    # acknowledgement threshold
+    for n in sorted({T // 2 + 1, T, T + 1}):
+        evs.append(("ext", 2, n))
     for n in sorted({1, T, T + 1, W}):
         evs.append(("recv", n))
     for n in sorted({T + 1, W}):
@@ -234,4 +250,5 @@ def alphabet(W, P, ext_codes=(), small=False):
     evs.append(("dB",))
     for c in ext_codes:
         evs.append(("ext", c, T + 1))
+    evs.append(("rshut",))
     return evs
